@@ -104,7 +104,8 @@ func (c *config) Decode(b []byte) error {
 }
 
 func (c *config) update(changes *config2.StringMap) error {
-	for key, value := range changes.Fields {
+	for _, key := range config2.SortedKeys(changes.Fields) {
+		value := changes.Fields[key]
 		switch key {
 		case Settings[MinLock]:
 			if sbValue, err := strconv.ParseFloat(value, 64); err != nil {
